@@ -15,6 +15,7 @@ import (
 	"net"
 	"os"
 	"sync"
+	"sync/atomic"
 	"syscall"
 	"testing"
 	"time"
@@ -340,5 +341,97 @@ func TestVerifC17Conns(t *testing.T) {
 	w.s.cm.PrintAndReset(w.s.rm.Logger)
 	cj.GetProxyStats().PrintAndReset(w.s.rm.Logger)
 	w.s.rm.PrintAndReset(w.s.rm.Logger)
+	fmt.Fprintf(os.Stdout, "VERIFCASE %d\n", 9999999)
+}
+
+// PROXY-protocol header: with RegistrationFlags.ProxyHeader the station sends the client's address to
+// the covert (by design) - the header text must still never reach the logs, whatever happens to that
+// write.  Covert behaviours: healthy; accepts and resets BEFORE the station's first write (the driver
+// uses the client conn's RemoteAddr(), which Proxy asks for between the dial and the header write, as
+// the rendezvous point: it returns only once the covert has reset the connection); accepts and closes.
+func TestVerifC17ProxyHeader(t *testing.T) {
+	rec := kit.NewRec("C17", "proxyheader")
+	defer rec.Close()
+	s := vNewStation(t, "c17ph")
+	rng := kit.Rand("c17-ph")
+	n := 5000000
+	reps := kit.Tier(2, 30)
+	for rep := 0; rep < reps; rep++ {
+		for ci := range c17Clients {
+			for _, behaviour := range []string{"healthy", "reset-before-first-write", "close-before-first-write", "reset-after-header"} {
+				n++
+				fmt.Fprintf(os.Stdout, "VERIFCASE %d\n", n)
+				desc := fmt.Sprintf("#%d proxy-header client=%s covert=%s", n, c17Clients[ci].name, behaviour)
+				rec.Ev("case", map[string]interface{}{"n": n, "desc": desc})
+				ln, err := net.Listen("tcp", "127.0.0.1:0")
+				if err != nil {
+					t.Fatal(err)
+				}
+				covertDone := make(chan struct{})
+				go func() {
+					defer close(covertDone)
+					c, err := ln.Accept()
+					if err != nil {
+						return
+					}
+					switch behaviour {
+					case "reset-before-first-write":
+						c.(*net.TCPConn).SetLinger(0)
+						c.Close()
+					case "close-before-first-write":
+						c.Close()
+					case "reset-after-header":
+						buf := make([]byte, 256)
+						c.Read(buf)
+						c.(*net.TCPConn).SetLinger(0)
+						c.Close()
+					default:
+						buf := make([]byte, 4096)
+						for {
+							if _, err := c.Read(buf); err != nil {
+								break
+							}
+						}
+						c.Close()
+					}
+				}()
+				ph := net.IPv4(192, 122, 189, byte(1+n%250)).To4()
+				sp := vRegSpec{Secret: vSecret(rng), TT: pb.TransportType_Min, Params: &pb.GenericTransportParams{RandomizeDstPort: boolp(false)}, LibVer: 4, Phantom: ph, Covert: ln.Addr().String(), ProxyHeader: true}
+				if _, err := s.vAdmit(sp); err != nil {
+					t.Fatal(err)
+				}
+				fl, err := s.vFlight(sp)
+				if err != nil {
+					t.Fatal(err)
+				}
+				remote := &net.TCPAddr{IP: net.ParseIP(c17Clients[ci].ip), Port: 46000 + n%10000}
+				conn := kit.NewScriptConn("c17ph", kit.TCPAddr(ph.String(), 443), remote, []kit.Seg{{Data: fl}, {Data: []byte("hello covert")}}, kit.EndVirtualTimeout)
+				conn.MaxBlock = 60 * time.Second
+				if behaviour == "reset-before-first-write" || behaviour == "close-before-first-write" {
+					// the handler asks for RemoteAddr once at the start (before the covert is dialled); Proxy
+					// asks again between the dial and the header write: that second call is the rendezvous
+					var calls atomic.Int32
+					conn.OnRemoteAddr = func() {
+						if calls.Add(1) == 2 {
+							select {
+							case <-covertDone:
+							case <-time.After(20 * time.Second):
+							}
+							time.Sleep(2 * time.Millisecond) // let the RST/FIN travel through loopback
+						}
+					}
+				}
+				s.vHandle(conn, ph)
+				ln.Close()
+				<-covertDone
+				rec.Count("evaluations", 1)
+				rec.Distinct("nontrivial", c17Clients[ci].name, "proxy-header", behaviour)
+				rec.Distinct("sites", "proxy-header", behaviour)
+				if rec.WantSample() {
+					rec.Sample(map[string]interface{}{"case": desc, "ops_tail": opsTail(conn)})
+				}
+			}
+		}
+	}
 	fmt.Fprintf(os.Stdout, "VERIFCASE %d\n", 9999999)
 }
